@@ -102,3 +102,59 @@ def pick_enzymes(rng, count):
 def canon_rot(s):
     s = s.upper()
     return min(s[i:] + s[:i] for i in range(len(s))) if s else s
+
+
+def _outcome(reply):
+    f = reply.split("\t")
+    return tuple(f[:f.index("INPUTS")])
+
+
+def lifecycle(ctx, case, pretouch=False, edit=False):
+    """the same entity objects used over time: (pretouch) the public `target_sequence()` is asked before the
+    first assembly; the assembly is run twice on the same objects; (edit) a module's feature table is curated
+    in place and the same objects are assembled again.  Every outcome must equal that of a first call on fresh
+    objects holding the same data (product compared with all its features and references)."""
+    import copy
+    op = asm_op(case)
+    ents = impl.build_entities(op[3], op[4])
+    vec, ms, objs = ents
+    if pretouch:
+        for e in [vec] + ms:
+            try:
+                e.target_sequence()
+            except Exception:  # noqa
+                pass
+    fresh, _, _ = impl.run_asm(op)
+    r1, _, _ = impl.run_asm(op, entities=ents)
+    if _outcome(r1) != _outcome(fresh):
+        ctx.fail("assembling objects whose target_sequence() was looked at beforehand gives {} but fresh objects "
+                 "give {}".format(_outcome(r1)[:2], _outcome(fresh)[:2]) if pretouch else
+                 "the first assembly differs between two sets of fresh objects", case)
+        return
+    r2, _, _ = impl.run_asm(op, entities=ents)
+    if _outcome(r2) != _outcome(fresh):
+        ctx.fail("assembling the same objects a second time gives a different product (features, references or "
+                 "sequence): {} vs {}".format(_outcome(r2)[1][:200], _outcome(fresh)[1][:200]), case)
+        return
+    if edit and case["mods"]:
+        rng = ctx.rng
+        i = rng.randrange(len(case["mods"]))
+        case2 = copy.deepcopy(case)
+        m = case2["mods"][i]
+        n = len(m["word"])
+        feats = list(m["feats"])
+        if feats:
+            del feats[rng.randrange(len(feats))]
+        a = rng.randrange(n)
+        feats.append([1, "u97", [], [[a, rng.randint(a + 1, n), rng.choice([1, -1])]]])
+        m["feats"] = feats
+        op2 = asm_op(case2)
+        live = objs[op2[4][i].oid].record
+        live.features[:] = impl.mk_record(op2[4][i].crec).features
+        r3, _, _ = impl.run_asm(op2, entities=ents)
+        fresh3, _, _ = impl.run_asm(op2)
+        if _outcome(r3) != _outcome(fresh3):
+            ctx.fail("after curating the feature table of module {} in place, assembling the same objects again "
+                     "does not reflect the edit: {} vs {}".format(m["oid"], _outcome(r3)[1][:200],
+                                                                  _outcome(fresh3)[1][:200]), case)
+    ctx.note("lifecycle" + ("+pretouch" if pretouch else "") + ("+edit" if edit else ""))
